@@ -37,7 +37,7 @@ func init() { core.Register(c11{}) }
 
 func (c11) ID() string { return "C11" }
 func (c11) Rule() string {
-	return "plans (the signer answers 0 / 600 / 1200 ms after it signed): an artifact whose resolved descriptor carries 0-3 annotations, in (a) a recording repository that hands out its own stored descriptor (as a cache would), (b) an oras memory store or (c) a real on-disk OCI layout (through registry.NewOCIRepository or behind the fault-injecting wrapper); 1-3 consecutive notation.SignOCI calls with tag / digest / full / mismatching-digest references, metadata empty / disjoint / colliding with an artifact annotation / reserved-prefixed, JWS / COSE, sometimes the very same options again; faults: resolve error, blob push ok + manifest push error; re-open of the layout between calls; the tag moved to a new build between two calls (the first build stays reachable by digest); sim clock advancing between calls. One plan in eight is the concurrent variant: 2-3 signing hosts, each with its own repository client, sign the same artifact in one shared registry (fresh or already holding a signature) while the tape interleaves their registry calls. non-trivial: more than one call, or a call with metadata, or a fault; distinct: hash of (store kind, annotations, call sequence, faults, verdicts)"
+	return "plans (the signer answers 0 / 600 / 1200 ms after it signed, and reports the signing time in UTC, +08:00 or -05:30): an artifact whose resolved descriptor carries 0-3 annotations, in (a) a recording repository that hands out its own stored descriptor (as a cache would), (b) an oras memory store or (c) a real on-disk OCI layout (through registry.NewOCIRepository or behind the fault-injecting wrapper); 1-3 consecutive notation.SignOCI calls with tag / digest / full / mismatching-digest references, metadata empty / disjoint / colliding with an artifact annotation / reserved-prefixed, JWS / COSE, sometimes the very same options again; faults: resolve error, blob push ok + manifest push error; re-open of the layout between calls; the tag moved to a new build between two calls (the first build stays reachable by digest); sim clock advancing between calls. One plan in eight is the concurrent variant: 2-3 signing hosts, each with its own repository client, sign the same artifact in one shared registry (fresh or already holding a signature) while the tape interleaves their registry calls. non-trivial: more than one call, or a call with metadata, or a fault; distinct: hash of (store kind, annotations, call sequence, faults, verdicts)"
 }
 func (c11) Components() map[string]string {
 	return map[string]string{
@@ -141,6 +141,7 @@ type recordingSigner struct {
 	// when the signer signed (signedAt), not the time of its answer
 	slow     time.Duration
 	signedAt time.Time
+	zone     *time.Location
 }
 
 func (s *recordingSigner) Sign(ctx context.Context, desc ocispec.Descriptor, opts notation.SignerSignOptions) ([]byte, *signature.SignerInfo, error) {
@@ -151,6 +152,10 @@ func (s *recordingSigner) Sign(ctx context.Context, desc ocispec.Descriptor, opt
 	b, si, err := s.inner.Sign(ctx, desc, opts)
 	if err == nil {
 		s.sigs = append(s.sigs, b)
+		if s.zone != nil && si != nil {
+			// a signer that reports the signing time in its own time zone (the same instant)
+			si.SignedAttributes.SigningTime = si.SignedAttributes.SigningTime.In(s.zone)
+		}
 	}
 	if s.slow > 0 {
 		rt.Sleep(s.slow)
@@ -467,6 +472,10 @@ func (l c11) Exec(env *core.Env) *core.Result {
 			faultsBefore := task.FaultsSeen
 			tCall := time.Now()
 			rs.slow, rs.signedAt = time.Duration(op.Int(4)%3)*600*time.Millisecond, time.Time{}
+			rs.zone = nil
+			if z := (op.Int(4) + op.Int(1)) % 4; z >= 2 {
+				rs.zone = time.FixedZone("sim", []int{8 * 3600, -(5*3600 + 1800)}[z-2])
+			}
 			gotDesc, sigManifest, err := notation.SignOCI(ctx, rs, repo, opts)
 			if !rs.signedAt.IsZero() {
 				tCall = rs.signedAt
